@@ -31,6 +31,7 @@ from edb.schema import objtypes as s_objtypes
 from edb.schema import policies as s_policies
 from edb.schema import schema as s_schema
 from edb.schema import types as s_types
+from edb.schema import utils as s_utils
 from edb.schema import expr as s_expr
 
 from edb.edgeql import ast as qlast
@@ -266,11 +267,21 @@ def try_type_rewrite(
             stype.get_union_of(schema).objects(schema) +
             stype.get_intersection_of(schema).objects(schema)
         )
-        for obj in objs:
-            srw_key = (obj, skip_subtypes)
+        keys = [(obj, skip_subtypes) for obj in objs]
+        # When the components overlap (share descendants), the backend
+        # selects from the exhaustive list of the descendants instead,
+        # each one without its subtypes, so those need rewrites too.
+        expanded, exhaustive = (
+            s_utils.get_type_expr_non_overlapping_union(stype, schema))
+        if exhaustive:
+            keys.extend(
+                (obj, True) for obj in expanded
+                if isinstance(obj, s_objtypes.ObjectType)
+            )
+        for srw_key in keys:
             if srw_key not in type_rewrites:
                 try_type_rewrite(
-                    stype=obj, skip_subtypes=skip_subtypes, ctx=ctx)
+                    stype=srw_key[0], skip_subtypes=srw_key[1], ctx=ctx)
                 # Mark this as having a real rewrite if any parts do
                 if type_rewrites[srw_key]:
                     type_rewrites[rw_key] = True
